@@ -641,4 +641,154 @@ func TestVerif_C16(t *testing.T) {
 		}
 		x.Outcome("%s", strings.Join(out, ";"))
 	})
+
+	// ------------------------------------------------------------------
+	// Cancel at every position for every registration kind: static exchange,
+	// dynamic exchange without / with StreamResult.InputSchema, static and
+	// dynamic producer (batch limit 1, so every turn ends with a cursor).
+	type ckind struct {
+		name     string
+		producer bool
+		dynamic  bool
+		dynInput bool
+	}
+	ckinds := []ckind{
+		{name: "exchange"},
+		{name: "dyn-exchange", dynamic: true},
+		{name: "dyn-exchange+inputschema", dynamic: true, dynInput: true},
+		{name: "producer", producer: true},
+		{name: "dyn-producer", producer: true, dynamic: true},
+	}
+	maxTurns := venum.QT(2, 3)
+	venum.Explore(t, venum.Cfg{Name: "cancel-kinds", Shardable: true}, func(x *venum.X) {
+		c0 := x.Choose(len(ckinds)*2*2, "kind*cache*header")
+		k := ckinds[c0%len(ckinds)]
+		cache := []int{0, -1}[(c0/len(ckinds))%2]
+		header := c0/(2*len(ckinds)) == 1
+		turnsBefore := x.Choose(maxTurns+1, "accepted-turns-before-cancel")
+		shape := 1 + x.Choose(2, "cancel-batch-shape") // 1 empty-schema batch, 2 input-schema batch with a row
+		userMask := []int{0, nUser - 1}[x.Choose(2, "user-keys")]
+
+		vfResetEvents()
+		vfC16Obs = nil
+		turns := make([]VfTurn, 8)
+		for i := range turns {
+			turns[i] = VfTurn{Emit: 1, Rows: 1}
+		}
+		mk := func() *Server {
+			s := NewServer()
+			handler := func(ctx context.Context, cc *CallContext, p VfXParams) (*StreamResult, error) {
+				r := &StreamResult{OutputSchema: vfOutSchema}
+				sc := VfScript{Turns: append([]VfTurn(nil), turns...), Base: p.X}
+				if k.producer {
+					r.State = &VfC16Prod{S: sc}
+				} else {
+					r.State = &VfC16Exch{S: sc}
+				}
+				if k.dynInput {
+					r.InputSchema = vfInSchema
+				}
+				if header {
+					r.Header = VfHeader{Title: "h"}
+				}
+				return r, nil
+			}
+			hs := VfHeader{}.ArrowSchema()
+			switch {
+			case k.dynamic:
+				DynamicStreamWithHeader(s, "m", hs, handler)
+			case k.producer && header:
+				ProducerWithHeader(s, "m", vfOutSchema, hs, handler)
+			case k.producer:
+				Producer(s, "m", vfOutSchema, handler)
+			case header:
+				ExchangeWithHeader(s, "m", vfOutSchema, vfInSchema, hs, handler)
+			default:
+				Exchange(s, "m", vfOutSchema, vfInSchema, handler)
+			}
+			return s
+		}
+		farm := vfHSNewFarm(1, mk, func(h *HttpServer) {
+			h.SetProducerBatchLimit(1)
+			if cache >= 0 {
+				h.SetCallStateCacheEntries(cache)
+			}
+			_ = h.SetCompressionLevel(0)
+		})
+		cls := "C16:cancel-kinds:" + k.name
+		fail := func(sig, format string, args ...any) {
+			x.Failf(sig, "kind=%s header=%v cache=%d turns-before=%d shape=%d userkeys=%04b: %s", k.name, header, cache, turnsBefore, shape, userMask, fmt.Sprintf(format, args...))
+		}
+		r0 := farm.Post("/m/init", vfXReq("m", 1000))
+		i0 := vfC16Inspect(r0)
+		if i0.broken != "" || len(i0.cursors) != 1 || i0.errs != 0 {
+			fail(cls+":init-no-cursor", "init response unusable: %+v", i0)
+			return
+		}
+		_, call := vfTokens(r0.Streams)
+		cur := i0.cursors[0]
+		minted := map[string]bool{cur: true, call: true}
+		plain := vfC16Tok{name: "plain", call: "real"}
+		for i := 0; i < turnsBefore; i++ {
+			var in arrow.RecordBatch
+			if k.producer {
+				in = vfEmpty(vfEmptySchema)
+			} else {
+				in = vfI64Batch("x", int64(7+i))
+			}
+			r := farm.Post("/m/exchange", vfC16Body(in, vfC16Meta(cur, cur, call, 0, plain, false)))
+			in.Release()
+			info := vfC16Inspect(r)
+			if info.broken != "" || info.errs != 0 || len(info.cursors) != 1 {
+				fail(cls+":turn-before-cancel-failed", "turn %d: %+v", i, info)
+				return
+			}
+			cur = info.cursors[0]
+			minted[cur] = true
+		}
+		var in arrow.RecordBatch
+		if shape == 1 {
+			in = vfEmpty(vfEmptySchema)
+		} else {
+			in = vfI64Batch("x", 99)
+		}
+		meta := vfC16Meta(cur, cur, call, userMask, plain, true)
+		obsBefore := len(vfC16Obs)
+		r := farm.Post("/m/exchange", vfC16Body(in, meta))
+		in.Release()
+		info := vfC16Inspect(r)
+		if info.broken != "" {
+			fail(cls+":response-broken", "%s", info.broken)
+			return
+		}
+		nCancel, nOther := 0, 0
+		for _, ob := range vfC16Obs[obsBefore:] {
+			if ob.What == "cancel" {
+				nCancel++
+			} else {
+				nOther++
+			}
+			ctxLeak, batchLeak := vfC16Leaks(ob, minted)
+			if len(ctxLeak)+len(batchLeak) > 0 {
+				fail(cls+":token-visible", "minted token visible in %v %v", ctxLeak, batchLeak)
+			}
+		}
+		if info.errs > 0 || info.status >= 400 {
+			fail(cls+":refused", "well-formed cancel continuation answered with an error (status %d, %d EXCEPTION batches), OnCancel ran %d times", info.status, info.errs, nCancel)
+		} else {
+			if info.batches != 0 || len(r.Streams) != 1 {
+				fail(cls+":stream-not-empty", "want one empty stream, got %d streams / %d batches", len(r.Streams), info.batches)
+			}
+		}
+		if nCancel != 1 {
+			fail(cls+":oncancel-count", "OnCancel ran %d times, want exactly once", nCancel)
+		}
+		if nOther != 0 {
+			fail(cls+":state-method-ran", "Produce/Exchange ran %d times on a cancel continuation", nOther)
+		}
+		if len(info.cursors) > 0 {
+			fail(cls+":cursor-returned", "cancel response carries a cursor")
+		}
+		x.Outcome("%s|turns=%d|status=%d|errs=%d|batches=%d|oncancel=%d|other=%d", k.name, turnsBefore, info.status, info.errs, info.batches, nCancel, nOther)
+	})
 }
